@@ -22,7 +22,8 @@ Prefix == << First, [op |-> "CreateBucket", b |-> "b2"],
               class |-> "none", cktype |-> "none"] >>
 RECURSIVE ApplyAll(_, _)
 ApplyAll(St, cs) == IF cs = <<>> THEN St ELSE ApplyAll(Apply(St, Head(cs)).s, Tail(cs))
-CGenInit == /\ S = ApplyAll(InitState(Buckets, Keys, Deviations), Prefix)
+CGenInit == /\ sits = <<>>
+            /\ S = ApplyAll(InitState(Buckets, Keys, Deviations), Prefix)
             /\ res = NoRes /\ hist = Prefix
             /\ gcfg \in {c \in AllConfigs : c.name \in CfgNames}
 \* copies mostly between DIFFERENT buckets (the destination of a CopyObject, the source of an UploadPartCopy is moved)
@@ -32,6 +33,6 @@ CrossFix(c, St) ==
   ELSE IF c.op = "UploadPartCopy" /\ c.sb = c.b /\ R(1..3) # 1
        THEN [c EXCEPT !.sb = OtherB(c.b), !.sk = PK(St, OtherB(c.b))]
   ELSE c
-CGenNext == Step(CrossFix(RandCall(RW(COpWSel), S), S)) /\ gcfg' = gcfg
-CEmit == IF Len(hist) = GenDepth THEN PrintT(ToJson([config |-> gcfg, calls |-> hist])) ELSE TRUE
+CGenNext == GStep(CrossFix(RandCall(RW(COpWSel), S), S)) /\ gcfg' = gcfg
+CEmit == IF Len(hist) = GenDepth THEN PrintT(ToJson([config |-> gcfg, calls |-> hist, sits |-> sits])) ELSE TRUE
 =============================================================================
